@@ -268,7 +268,8 @@ def check_kernel(idx):
                 cx = [float(ft(c)) for c in cx]
                 nat = _G["native"].call("k_" + k.name, cx, k.nout, k.elem)
                 nh = enc.NumH()
-                nh.eq = lambda a, b: abs(a - b) <= 1e-3 * (1 + abs(a) + abs(b)) or (a != a and b != b)
+                tol = 3e-5 if k.elem == 4 else 1e-9     # a wrong formula is off by far more than accumulated rounding of these small kernels
+                nh.eq = lambda a, b: abs(a - b) <= tol * (1 + abs(a) + abs(b)) or (a != a and b != b)
                 try:
                     hy_ok = all(bool(c) for c in (k.hyps_num(cx, nh) if hasattr(k, "hyps_num") else []))
                     nobs = k.oblig(cx, nat, nh)
